@@ -56,6 +56,18 @@ import (
 
 func init() { subs["c15"] = c15 }
 
+// at most 3 reports per signature (the harness keeps only the first 200 failures overall)
+var c15Reported = map[string]int{}
+
+func c15Fail(c *Ctx, sig, detail string, replay interface{}) {
+	c15Reported[sig]++
+	if c15Reported[sig] > 3 {
+		c.Count("more-failures:" + sig)
+		return
+	}
+	c.Fail(sig, detail, replay)
+}
+
 // ---------------------------------------------------------------- fake connection
 
 type c15Conn struct {
@@ -417,7 +429,7 @@ func c15Oracle(c *Ctx, out string, wire []byte, classes string) {
 		if strings.HasPrefix(ev, "panic:") {
 			site := strings.TrimPrefix(ev, "panic:")
 			c.Count("panic-site:" + site)
-			c.Fail(c15SigOf(site), fmt.Sprintf("Peer.readLoop path panics (%s) on a %d-byte stream [%s]; no recover on that goroutine: the process dies. stream(wire)=%s key=%x",
+			c15Fail(c, c15SigOf(site), fmt.Sprintf("Peer.readLoop path panics (%s) on a %d-byte stream [%s]; no recover on that goroutine: the process dies. stream(wire)=%s key=%x",
 				site, len(wire), classes, c15Hex(wire), c15Key), map[string]interface{}{"wire": c15Hex(wire), "key": hex.EncodeToString(c15Key)})
 		}
 		if strings.HasPrefix(ev, "msg:") {
@@ -425,7 +437,7 @@ func c15Oracle(c *Ctx, out string, wire []byte, classes string) {
 			fmt.Sscanf(ev, "msg:%d:%d", &code, &n)
 			c.Count(fmt.Sprintf("delivered-code=%#x", code))
 			if code > 0x1F || code == int(p2p.HeartbeatMsg) {
-				c.Fail("c15/code-range", fmt.Sprintf("code %#x reached the dispatcher", code), map[string]interface{}{"wire": c15Hex(wire)})
+				c15Fail(c, "c15/code-range", fmt.Sprintf("code %#x reached the dispatcher", code), map[string]interface{}{"wire": c15Hex(wire)})
 			}
 		}
 	}
@@ -521,6 +533,9 @@ type c15Chain struct {
 	height  uint32
 	known   map[common.Hash]bool
 	confirm int64
+	misses  int64 // lookups of the first missing height
+	runaway int64 // respBlocks goroutines stopped by the stub
+	guard   bool  // stop runaway respBlocks goroutines (fuzz instance only)
 }
 
 func (bc *c15Chain) blk(h uint32) *types.Block {
@@ -538,6 +553,14 @@ func (bc *c15Chain) GetBlockByHeight(height uint32) *types.Block {
 	atomic.AddInt64(&bc.calls, 1)
 	if height <= bc.height {
 		return bc.blk(height)
+	}
+	// respBlocks does not advance past the first missing block: a GetBlocksMsg with a huge span asks for
+	// the same height (To-From)/10 times on its own goroutine.  The fuzz instance ends such a goroutine
+	// (otherwise a few of them spin for the rest of the run); the defect itself is measured by probe (6e).
+	if bc.guard && height == bc.height+1 && atomic.AddInt64(&bc.misses, 1) > 50000 {
+		atomic.StoreInt64(&bc.misses, 0)
+		atomic.AddInt64(&bc.runaway, 1)
+		runtime.Goexit()
 	}
 	return nil
 }
@@ -587,6 +610,22 @@ func c15NewPM(dir string) (*network.ProtocolManager, *c15Chain, *network.VerifPe
 	vp := network.VerifNewPeer(rp)
 	pm.VerifRegister(vp)
 	return pm, bc, vp
+}
+
+// panic message of a rcvBlockLoop goroutine, if any ("" = none)
+var c15LoopPanic atomic.Value
+
+// the real rcvBlockLoop consumes what handleBlocksMsg pushes (it runs on a harness goroutine so that
+// a panic inside the loop body is caught here instead of killing the harness)
+func c15StartBlockLoop(pm *network.ProtocolManager) {
+	go func() {
+		defer func() {
+			if r := recover(); r != nil {
+				c15LoopPanic.Store(fmt.Sprint(r))
+			}
+		}()
+		pm.VerifRcvBlockLoop()
+	}()
 }
 
 // runs f with a deadline; "deadlock" if it does not return
@@ -829,7 +868,7 @@ func c15(c *Ctx) {
 	c.Op("consts", fmt.Sprintf("max=%d hsmax=%d magic=%d:%d maxcode=%d hb=%d", params.MaxPackageLength, p2p.PackageMaxLen,
 		p2p.PackagePrefix[0], p2p.PackagePrefix[1], maxcode, uint32(p2p.HeartbeatMsg)))
 	if len(p2p.PackagePrefix) != 2 || p2p.PackageLength != 4 {
-		c.Fail("c15/header-shape", "header is no longer 2+4 bytes", nil)
+		c15Fail(c, "c15/header-shape", "header is no longer 2+4 bytes", nil)
 	}
 
 	// (1) packFrame output is what the generator believes a valid frame is (ties c15Msg to the code)
@@ -844,7 +883,7 @@ func c15(c *Ctx) {
 		buf, err := p.VerifPackFrame(p2p.MsgCode(code), pl)
 		f := c15Msg(code, payload, "valid")
 		if err != nil || !bytes.Equal(buf, append(append([]byte{}, f.hdr...), f.wire...)) {
-			c.Fail("c15/generator-mismatch", "packFrame output differs from the harness' frame builder", nil)
+			c15Fail(c, "c15/generator-mismatch", "packFrame output differs from the harness' frame builder", nil)
 		}
 		c.Count("packframe-check")
 	}
@@ -879,7 +918,7 @@ func c15(c *Ctx) {
 		c.Op("runc "+c15Chunks(mch), outC)
 		c.Count("split")
 		if outC != out {
-			c.Fail("c15/split-variance", fmt.Sprintf("same bytes, different segmentation: %q vs %q", out, outC), map[string]interface{}{"wire": c15Hex(wire), "chunks": c15Chunks(wch)})
+			c15Fail(c, "c15/split-variance", fmt.Sprintf("same bytes, different segmentation: %q vs %q", out, outC), map[string]interface{}{"wire": c15Hex(wire), "chunks": c15Chunks(wch)})
 		}
 		// truncation at every offset (a sample of streams)
 		if it%25 == 0 || c.Tier == "thorough" && it%5 == 0 {
@@ -889,11 +928,11 @@ func c15(c *Ctx) {
 				c.Count("truncation")
 				if !strings.HasSuffix(o, "need-more") && !strings.HasPrefix(out, o) {
 					// a truncated stream may only end earlier with need-more, or behave like the full one
-					c.Fail("c15/truncation", fmt.Sprintf("cut at %d: %q, full: %q", k, o, out), nil)
+					c15Fail(c, "c15/truncation", fmt.Sprintf("cut at %d: %q, full: %q", k, o, out), nil)
 				}
 				for _, ev := range strings.Split(o, ";") {
 					if strings.HasPrefix(ev, "panic:") && !strings.Contains(out, ev) {
-						c.Fail(c15SigOf(strings.TrimPrefix(ev, "panic:")), "panic on a truncated stream only", map[string]interface{}{"wire": c15Hex(wire[:k])})
+						c15Fail(c, c15SigOf(strings.TrimPrefix(ev, "panic:")), "panic on a truncated stream only", map[string]interface{}{"wire": c15Hex(wire[:k])})
 					}
 				}
 			}
@@ -950,7 +989,7 @@ func c15(c *Ctx) {
 			c.Count("alloc-probe")
 			bound := uint64(6 + 2*int(params.MaxPackageLength))
 			if got > bound+65536 {
-				c.Fail("c15/frame-alloc", fmt.Sprintf("one frame step allocated %d bytes > 6+2*MaxPackageLength", got), nil)
+				c15Fail(c, "c15/frame-alloc", fmt.Sprintf("one frame step allocated %d bytes > 6+2*MaxPackageLength", got), nil)
 			}
 		}
 	}
@@ -964,7 +1003,7 @@ func c15(c *Ctx) {
 		c.Count("hs-alloc-probe")
 		bound := uint64(6 + 2*int(params.MaxPackageLength))
 		if got > bound && p2p.PackageMaxLen > int(params.MaxPackageLength) {
-			c.Fail("c15/handshake-alloc", fmt.Sprintf("readHandshakeBuf: a 6-byte prefix (declared length %d) from an unauthenticated remote made the node allocate %d bytes before any payload byte arrived; "+
+			c15Fail(c, "c15/handshake-alloc", fmt.Sprintf("readHandshakeBuf: a 6-byte prefix (declared length %d) from an unauthenticated remote made the node allocate %d bytes before any payload byte arrived; "+
 				"the accepted limit is PackageMaxLen=%d (vs MaxPackageLength=%d for frames), and HandleConn sets no read deadline before the handshake, so the buffer stays pinned as long as the TCP connection is open",
 				declared, got, p2p.PackageMaxLen, params.MaxPackageLength), map[string]interface{}{"stream": c15Hex(c15Hdr(uint32(declared)))})
 		}
@@ -980,14 +1019,14 @@ func c15(c *Ctx) {
 		c.Count("hs-out:" + strings.SplitN(out, ":", 2)[0])
 		if strings.HasPrefix(out, "panic:") {
 			site := strings.TrimPrefix(out, "panic:")
-			c.Fail(c15SigOf(site), fmt.Sprintf("serverEncHandshake/readHandshakeBuf panics (%s) on a %d-byte unauthenticated stream [%s]; it runs on the per-connection goroutine of listenLoop without recover",
+			c15Fail(c, c15SigOf(site), fmt.Sprintf("serverEncHandshake/readHandshakeBuf panics (%s) on a %d-byte unauthenticated stream [%s]; it runs on the per-connection goroutine of listenLoop without recover",
 				site, len(hc.stream), hc.class), map[string]interface{}{"stream": c15Hex(hc.stream), "server_key": "0x9c3c…53eb (p2p tests)"})
 		}
 		chunks := c15Split(c, hc.stream)
 		outC := c15ImplHs(chunks)
 		c.Op(fmt.Sprintf("hsc %s %s %s", c15B(hc.point), c15B(hc.mac), c15Chunks(chunks)), outC)
 		if outC != out {
-			c.Fail("c15/split-variance", "handshake reader depends on segmentation", nil)
+			c15Fail(c, "c15/split-variance", "handshake reader depends on segmentation", nil)
 		}
 		if it%40 == 0 && len(hc.stream) < 400 {
 			for k := 0; k < len(hc.stream); k++ {
@@ -1007,7 +1046,7 @@ func c15(c *Ctx) {
 		req := cc.wrote.Bytes()
 		plainReq, err := p2p.VerifReadHandshakeBuf(&c15Conn{chunks: [][]byte{req}}, c15Prv)
 		if err != nil || len(req) < 100 {
-			c.Fail("c15/harness", fmt.Sprintf("could not capture an honest handshake request: %v", err), nil)
+			c15Fail(c, "c15/harness", fmt.Sprintf("could not capture an honest handshake request: %v", err), nil)
 		}
 		for it := 0; it < c.N/3+20; it++ {
 			pl := plainReq
@@ -1034,7 +1073,7 @@ func c15(c *Ctx) {
 			})
 			c.Count("hsfull-server:" + class + ":" + out)
 			if out == "panic" {
-				c.Fail("c15/handshake-panic", "serverEncHandshake panics: "+msg, map[string]interface{}{"plain": c15Hex(pl)})
+				c15Fail(c, "c15/handshake-panic", "serverEncHandshake panics: "+msg, map[string]interface{}{"plain": c15Hex(pl)})
 			}
 			// client side: the response of a malicious server
 			cliPub := ecies.ImportECDSAPublic(&c15CliPrv.PublicKey)
@@ -1053,7 +1092,7 @@ func c15(c *Ctx) {
 			})
 			c.Count("hsfull-client:" + out2)
 			if out2 == "panic" {
-				c.Fail("c15/handshake-panic", "clientEncHandshake panics: "+msg2, map[string]interface{}{"plain": c15Hex(rp)})
+				c15Fail(c, "c15/handshake-panic", "clientEncHandshake panics: "+msg2, map[string]interface{}{"plain": c15Hex(rp)})
 			}
 		}
 	}
@@ -1062,7 +1101,9 @@ func c15(c *Ctx) {
 	dir, _ := os.MkdirTemp("", "c15")
 	defer os.RemoveAll(dir)
 	{
-		pm, _, vp := c15NewPM(dir)
+		pm, fz, vp := c15NewPM(dir)
+		fz.guard = true
+		c15StartBlockLoop(pm)
 		nH := c.N
 		for it := 0; it < nH; it++ {
 			code := p2p.MsgCode(c.Rnd.Intn(0x22))
@@ -1094,15 +1135,24 @@ func c15(c *Ctx) {
 				if code == p2p.DiscoverResMsg && strings.Contains(pmsg, "nil pointer") {
 					sig = "c15/discover-node-nil-deref"
 				}
-				c.Fail(sig, fmt.Sprintf("ProtocolManager.work(code=%#x) panics on a %d-byte payload (%s): %s; handlePeer has no recover", uint32(code), len(payload), class, pmsg),
+				c15Fail(c, sig, fmt.Sprintf("ProtocolManager.work(code=%#x) panics on a %d-byte payload (%s): %s; handlePeer has no recover", uint32(code), len(payload), class, pmsg),
 					map[string]interface{}{"code": uint32(code), "payload": c15Hex(payload)})
 			}
 			if out == "deadlock" {
-				c.Fail("c15/handler-deadlock/"+fmt.Sprintf("%#x", uint32(code)), "handler did not return within 5s", map[string]interface{}{"code": uint32(code), "payload": c15Hex(payload)})
-				pm, _, vp = c15NewPM(dir)
+				c15Fail(c, "c15/handler-deadlock/"+fmt.Sprintf("%#x", uint32(code)), "handler did not return within 5s", map[string]interface{}{"code": uint32(code), "payload": c15Hex(payload)})
+				pm, fz, vp = c15NewPM(dir)
+				fz.guard = true
+				c15StartBlockLoop(pm)
 			}
 		}
-		time.Sleep(50 * time.Millisecond)
+		time.Sleep(700 * time.Millisecond) // let rcvBlockLoop drain and its queue timer fire once
+		if m, _ := c15LoopPanic.Load().(string); m != "" {
+			c15Fail(c, "c15/rcvblockloop-panic", "ProtocolManager.rcvBlockLoop panics on blocks decoded from a BlocksMsg: "+m, nil)
+		}
+		c.Count("rcvblockloop-alive")
+		if atomic.LoadInt64(&fz.runaway) > 0 {
+			c.Count("fuzz:getblocks-runaway-goroutine-stopped")
+		}
 	}
 	// (6b) DiscoverResMsg with a 128-character node id that is not hexadecimal (deterministic)
 	{
@@ -1116,7 +1166,7 @@ func c15(c *Ctx) {
 		})
 		c.Count("discover-res-nonhex:" + out)
 		if out == "panic" {
-			c.Fail("c15/discover-node-nil-deref", "handleDiscoverResMsg -> VerifyNode -> p2p.ParseNodeString: BytesToNodeID returns nil for a 128-char non-hex id and nodeID.PubKey() dereferences it: "+pmsg,
+			c15Fail(c, "c15/discover-node-nil-deref", "handleDiscoverResMsg -> VerifyNode -> p2p.ParseNodeString: BytesToNodeID returns nil for a 128-char non-hex id and nodeID.PubKey() dereferences it: "+pmsg,
 				map[string]interface{}{"code": uint32(p2p.DiscoverResMsg), "payload": c15Hex(payload)})
 		}
 	}
@@ -1136,7 +1186,7 @@ func c15(c *Ctx) {
 		})
 		c.Count("confirm-flood:" + out)
 		if out == "deadlock" {
-			c.Fail("c15/confirm-cache-deadlock", fmt.Sprintf("after %d ConfirmMsg (each ~105 bytes) for unknown blocks at distinct heights the next handleConfirmMsg never returns: ConfirmCache.Push -> Clear re-locks the non-reentrant mutex it holds; "+
+			c15Fail(c, "c15/confirm-cache-deadlock", fmt.Sprintf("after %d ConfirmMsg (each ~105 bytes) for unknown blocks at distinct heights the next handleConfirmMsg never returns: ConfirmCache.Push -> Clear re-locks the non-reentrant mutex it holds; "+
 				"every later handleConfirmMsg and every insertBlock (mergeConfirmsFromCache -> Pop) blocks forever", atomic.LoadInt64(&sent)), map[string]interface{}{"messages": atomic.LoadInt64(&sent)})
 		}
 	}
@@ -1153,7 +1203,7 @@ func c15(c *Ctx) {
 		})
 		c.Count("block-flood:" + out)
 		if out == "deadlock" {
-			c.Fail("c15/block-cache-deadlock", fmt.Sprintf("BlockCache.Add never returns at the %d-th distinct height: Add -> Clear re-locks the mutex it holds; Add is called by rcvBlockLoop for every received block whose parent is unknown, so the block-receiving loop of the node stops for good",
+			c15Fail(c, "c15/block-cache-deadlock", fmt.Sprintf("BlockCache.Add never returns at the %d-th distinct height: Add -> Clear re-locks the mutex it holds; Add is called by rcvBlockLoop for every received block whose parent is unknown, so the block-receiving loop of the node stops for good",
 				atomic.LoadInt64(&added)+1), map[string]interface{}{"blocks": atomic.LoadInt64(&added)})
 		}
 	}
@@ -1167,7 +1217,7 @@ func c15(c *Ctx) {
 		calls := atomic.LoadInt64(&bc.calls)
 		c.Count("getblocks-span")
 		if calls > 4*int64(bc.height+1)+100 {
-			c.Fail("c15/getblocks-unbounded-loop", fmt.Sprintf("GetBlocksMsg{From:0,To:%d} on a chain of height %d: respBlocks made %d GetBlockByHeight lookups (%v) after the chain ended; To is a remote-chosen uint32 (up to 4.29e9 => ~4.29e8 futile lookups and log lines per 12-byte request, each request on its own goroutine)",
+			c15Fail(c, "c15/getblocks-unbounded-loop", fmt.Sprintf("GetBlocksMsg{From:0,To:%d} on a chain of height %d: respBlocks made %d GetBlockByHeight lookups (%v) after the chain ended; To is a remote-chosen uint32 (up to 4.29e9 => ~4.29e8 futile lookups and log lines per 12-byte request, each request on its own goroutine)",
 				span, bc.height, calls, time.Since(start).Round(time.Millisecond)), map[string]interface{}{"from": 0, "to": span, "lookups": calls})
 		}
 	}
